@@ -21,12 +21,14 @@ var keys = []string{"required", "exist", "either", "botheq", "to", "ge", "le", "
 // byte (' , / = |) - a splitter or parser that narrows runes to bytes confuses them with the syntax characters.
 var rawValues = []string{"", "1", "1~10", "a/b", "'/, ,:'", "-", "中", "a=b", "0", "'x'", "''", "(a)/(b)", "()", "(a", "b)", "大/听", "'大,听'",
 	// white space at the edges of a value is part of the value (a separator of one blank, a suffix that ends in a blank)
-	" ", "end ", " x", "\tx\n", "\u3000中\u3000", "x\\"}
+	" ", "end ", " x", "\tx\n", "\u3000中\u3000", "x\\", "a=(b"}
 var messages = []string{"\x00none", "m", "ab", "中", "说明文字", "a=b", "x~y(z)/w", "'a,b'", "'需要,同时'", "=", "a|b", "1", "字", "必须大于1", "请听说明", "丽丯乼ħ", "'大,听'", "(x)",
 	// messages that mention the label words themselves: the label is still prepended, exactly once
 	"see explain: at least 1", "字段说明: 不能超过 100", "explain:", "说明:", "explain: twice explain:",
 	// white space at the edges of a message is part of the message
 	"must be set ", " m", "\t", "必填\u3000", " ", "ends with a backslash \\",
+	// bracket look-alikes inside a message: "=(" without a closing bracket, a half-open interval
+	"范围=(1~9]", "must be =(a", "x=(", "=(", "(1~2]",
 	// lengths around the sizes at which fixed buffers end (rule text of 60..70 bytes with the usual keys and values)
 	strings.Repeat("x", 47), strings.Repeat("x", 48), strings.Repeat("x", 49), strings.Repeat("x", 50), strings.Repeat("x", 51), strings.Repeat("x", 52), strings.Repeat("x", 53), strings.Repeat("x", 54),
 	strings.Repeat("x", 55), strings.Repeat("x", 56), strings.Repeat("x", 57), strings.Repeat("x", 58), strings.Repeat("x", 59), strings.Repeat("x", 60), strings.Repeat("x", 61), strings.Repeat("x", 62),
@@ -218,6 +220,18 @@ func run(c *runner.Ctx) {
 			checkList(c, []single{s}, how)
 		}
 		c.Sample(func() interface{} { return s.String() })
+	}
+	// (1a') every single rule with a plain rule behind it and in front of it: whatever a value or a message looks
+	// like, the rules around it are recovered
+	c.Space("roundtrip/single-between-plain-rules")
+	plainA := single{key: "phone", hasMsg: true, msg: "ab"}
+	plainB := single{key: "required"}
+	for _, s := range singles {
+		if !c.Take() {
+			continue
+		}
+		checkList(c, []single{s, plainA}, 0)
+		checkList(c, []single{plainB, s, plainA}, 3)
 	}
 	// (1b) lists of length 2 and 3 over a reduced menu
 	var menu []single
